@@ -106,7 +106,36 @@ func c01Scenario(c *Ctx) {
 				return false
 			}
 			if len(twInvalid) > 0 {
-				c.Fail("C01/twin/discarded", "twin miner discarded %d of the transactions the first miner packaged in block %d", len(twInvalid), blk.Height())
+				// the signature names what was discarded and why (the twin's own log), so that one cause does not stand for all
+				why := "unknown"
+				lines := takeErrors(f2.Tag + 1 + r.Deputy)
+				reason := func(l, mark string) string {
+					i := strings.Index(l, mark)
+					if i < 0 {
+						return ""
+					}
+					w := strings.Fields(strings.SplitN(l[i+len(mark):], ", transaction:", 2)[0])
+					if len(w) > 6 {
+						w = w[:6]
+					}
+					return sanitize(strings.Join(w, "-"))
+				}
+				for _, l := range lines { // the line that names the discarded transaction wins
+					if strings.Contains(l, twInvalid[0].Hash().Hex()) {
+						if r := reason(l, "Apply transaction failure. error:"); r != "" {
+							why = r
+						}
+					}
+				}
+				if why == "unknown" {
+					for _, l := range lines {
+						if r := reason(l, "VerifyTxBeforeApply fail error="); r != "" {
+							why = r
+						}
+					}
+				}
+				c.Fail(fmt.Sprintf("C01/twin/discarded/type%d/%s", twInvalid[0].Type(), why), "twin miner (same parent, same instant, same packaged transactions; its own stable block is genesis, the first miner's trails its head by %d) discarded %d of the transactions the first miner packaged in block %d: %v\ntwin's log: %v",
+					r.Lag, len(twInvalid), blk.Height(), txsSummary(twInvalid), lines)
 				return false
 			}
 			if tw.Hash() != blk.Hash() {
